@@ -9,7 +9,10 @@ JUNK = ["FOOBAR this is not a PDB record", "JUNK", "XXXXXX 1 2 3", "REMARK 999 f
         "CONECT    1    2", "HETNAM     LIG LIGAND", "ANISOU    1  N   ALA A   1     2406   1892   1614    198    519   -328       N",
         "SIGATM    1  N   ALA A   1       0.010   0.020   0.030  0.00  0.00           N", "MASTER        0    0    0    0",
         "CRYST1   50.000   50.000   50.000  90.00  90.00  90.00 P 1           1", "SEQRES   1 A    3  ALA GLY SER",
-        "HEADER    TEST                                    01-JAN-00   XXXX", "TITLE     A TITLE", "COMPND    MOL_ID: 1;"]
+        "HEADER    TEST                                    01-JAN-00   XXXX", "TITLE     A TITLE", "COMPND    MOL_ID: 1;",
+        # a HET record with a blank atom count (its parser rejects it) and truncated stray lines whose names are
+        # prefixes of coordinate / bookkeeping record names
+        "HET    LIG  A 301           ligand", "HETA", "ATO", "MOD", "HETAT", "TE", "HET"]
 
 MUTATIONS = ["blank_lines", "ws_lines", "junk", "crlf", "truncate", "ter_variants", "end_missing", "end_repeated",
              "end_midfile", "models", "atoms_before_model", "altloc_interleaved", "altloc_blocked", "icodes",
@@ -197,7 +200,7 @@ def apply(items, muts, rng):
         if cands:
             lines.insert(rng.choice(cands), "END")
     if "leading_records" in muts:
-        lines = rng.sample(JUNK, 4) + lines
+        lines = rng.sample(JUNK, 4) + rng.sample(JUNK[-7:], 2) + lines
     if "junk" in muts or "tabs_in_junk" in muts:
         for _ in range(rng.randint(1, 6)):
             j = rng.choice(JUNK)
